@@ -447,9 +447,13 @@ def execute(run):
         leaves = {q: get_path(base['prms'], q) for q in leaf_paths(base['prms'])}
         # some of one pipeline stage's leaves change, everything upstream stays identical: state
         # keyed by the upstream data alone then meets different downstream parameters
-        kind = rng_scene.choice(sorted(STAGE_LEAVES))
-        chosen = [q for q in STAGE_LEAVES[kind] if rng_scene.random() < 0.5] or \
-            [rng_scene.choice(STAGE_LEAVES[kind])]
+        stage_leaves = dict(STAGE_LEAVES)
+        new = prmspace.discovered_leaves(dflt)
+        if new:             # parameters the harness's table does not know yet
+            stage_leaves['discovered'] = new
+        kind = rng_scene.choice(sorted(stage_leaves))
+        chosen = [q for q in stage_leaves[kind] if rng_scene.random() < 0.5] or \
+            [rng_scene.choice(stage_leaves[kind])]
         for path in chosen:
             if path == ('LAYERING_PRMS', 'gmm_kwargs', 'rescale_0_to_x') \
                     and rng_scene.random() < 0.7:
